@@ -4,6 +4,7 @@ import Driver.Read
 import Driver.Cache
 import Driver.Walk
 import Driver.Pfn
+import Driver.Err
 
 def main (args : List String) : IO UInt32 := do
   let stdin ← IO.getStdin
@@ -14,4 +15,5 @@ def main (args : List String) : IO UInt32 := do
   | ["cache"] => Driver.Cache.run stdin; return 0
   | ["walk"] => Driver.Walk.run stdin; return 0
   | ["pfn"] => Driver.Pfn.run stdin; return 0
+  | ["err"] => Driver.Err.run stdin; return 0
   | _ => IO.eprintln "usage: kdfdrv <stream>"; return 2
